@@ -24,8 +24,15 @@
        into whatever reader it returns, hence position <= bytes delivered, for every schedule.
      * C20_next_keeps_stream: every result of next_opt (token, end, ANY error) carries a reader
        with an intact stream view.
+     * C20_retry_outside_quote: after E_Io at a position whose fault-free verdict is neither a
+       quoted scalar nor Eof, calling next_opt again on the returned reader fails again or
+       returns exactly the fault-free result of the failed call (the pending atom is seen from
+       its first byte).  Holds at any depth of the refill loop (after any number of successful
+       fills within the failed call).
    Not claimed: resumability after an I/O error inside a quoted scalar (known finding
-   text-retry-in-quote). *)
+   text-retry-in-quote; C20_ex_known_finding_retry_in_quote shows the model reproduces it: the
+   window is repositioned after the opening quote).  Positions whose verdict is Eof are excluded
+   too, because an unterminated quote is reported as Eof. *)
 From JV Require Import Bytes Tables U64Swar BufWin TextTok TextReader TextRef.
 From JV.proofs Require Import BufWinProofs TextReaderProofs TextRefProofs TextReaderMainProofs TextReaderFullProofs FaultProofs.
 From Coq Require Import List.
@@ -112,6 +119,28 @@ Theorem C20_stream_fail_first : forall input capv tl, 0 < capv ->
 Proof. exact stream_fail_first. Qed.
 Print Assumptions C20_stream_fail_first.
 
+(* ---------- retry ---------- *)
+(* qeof res = the fault-free verdict is a quoted scalar or Eof (excluded, see header) *)
+Theorem C20_retry_outside_quote : forall input fuel r r',
+  wf_bytes input -> rokf input r -> length (rest (rrd r)) + 2 <= fuel ->
+  capok (rbw r) (rrd r) (snd (tk (startb r) (stream_of r))) ->
+  next_opt fuel r = NErr E_Io r' ->
+  ~ qeof (fst (tk (startb r) (stream_of r))) ->
+  (exists r'', next_opt fuel r' = NErr E_Io r'' /\ rokf input r'' /\ reader_position r'' <= length input)
+  \/ stepf input (cap (rbw r)) (length (rest (rrd r))) (fst (tk (startb r) (stream_of r))) (next_opt fuel r').
+Proof. exact retry_outside_quote. Qed.
+Print Assumptions C20_retry_outside_quote.
+
+(* the reader returned with the error is positioned on the pending atom *)
+Theorem C20_retry_position : forall input fuel r r',
+  wf_bytes input -> rokf input r -> next_opt fuel r = NErr E_Io r' ->
+  qeof (fst (tk (startb r) (stream_of r))) \/
+  (fst (tk (startb r') (stream_of r')) = fst (tk (startb r) (stream_of r)) /\
+   snd (tk (startb r') (stream_of r')) <= snd (tk (startb r) (stream_of r)) /\
+   cap (rbw r') = cap (rbw r) /\ length (rest (rrd r')) <= length (rest (rrd r))).
+Proof. exact next_opt_retry_pos. Qed.
+Print Assumptions C20_retry_position.
+
 (* ---------- non-vacuity ---------- *)
 (* "a=b " read through an 8-byte buffer; the Read delivers 2 bytes, then fails, then delivers
    the rest.  The first call succeeds although a Fail is scheduled later; the second call hits
@@ -163,4 +192,32 @@ Proof.
   { split; [exists [97%N]; split; reflexivity|right; cbn; repeat constructor]. }
   split; [left; split; reflexivity|]. split; [right; vm_compute; split; repeat constructor|].
   split; vm_compute; reflexivity.
+Qed.
+
+(* retry after the fault of C20_ex_io_error: the verdict at ex_r1 is the operator '=', not a
+   quoted scalar; the retried call returns it *)
+Example C20_ex_retry :
+  next_opt 20 ex_r1 = NErr E_Io ex_r2 /\
+  fst (tk (startb ex_r1) (stream_of ex_r1)) = RTok (ROp Equal) [98; 32]%N /\
+  ~ qeof (fst (tk (startb ex_r1) (stream_of ex_r1))) /\
+  exists r3, next_opt 20 ex_r2 = NTok (ROp Equal) r3 /\ stream_of r3 = [98; 32]%N.
+Proof.
+  split; [vm_compute; reflexivity|]. split; [vm_compute; reflexivity|]. split; [vm_compute; intros []|].
+  eexists. split; vm_compute; reflexivity.
+Qed.
+
+(* known finding text-retry-in-quote, reproduced by the model: '"ab" ' with the fault after
+   '"a'.  The error reader's window starts AFTER the opening quote, so the retried call returns
+   the unquoted scalar ab" instead of the quoted scalar "ab".  (C20_next_fault_sound still holds
+   for the retried call: it returns what the reference tokenizer returns at the position the
+   reader is actually at.)  This is why C20_retry_outside_quote excludes quoted scalars. *)
+Definition exq_input : bytes := [34; 97; 98; 34; 32]%N.
+Example C20_ex_known_finding_retry_in_quote :
+  fst (tk true exq_input) = RTok (RQuo [97; 98]%N) [32%N] /\
+  exists r1, next_opt 20 (reader_new 8 exq_input [Data 2; Fail; Data 10]) = NErr E_Io r1 /\
+    stream_of r1 = [97; 98; 34; 32]%N /\ reader_position r1 = 1 /\
+    exists r2, next_opt 20 r1 = NTok (RUnq [97; 98; 34]%N) r2.
+Proof.
+  split; [vm_compute; reflexivity|]. eexists. split; [vm_compute; reflexivity|].
+  split; [vm_compute; reflexivity|]. split; [vm_compute; reflexivity|]. eexists. vm_compute. reflexivity.
 Qed.
